@@ -12,7 +12,11 @@ package base58
 
 //@ func CheckDecode
 //@ ensures[err] err != nil ==> b == nil
-//@ ensures[frame] err == nil ==> b58ok(s) && len(b58dec(s)) >= 5 && len(b) == len(b58dec(s)) - 4
+//@ ensures[frame] err == nil ==> b58ok(s) && len(b58dec(s)) >= 4 && len(b) == len(b58dec(s)) - 4
+// every byte string has a check-encoded form that decodes back, the empty one included: a decodable
+// string is refused only when it is too short to hold the four checksum bytes, or after its
+// checksum was compared
+//@ ensures[complete] err != nil && b58ok(s) ==> len(b58dec(s)) < 4 || ncalls(Checksum) == 1
 //@ ensures[payload] err == nil ==> forall(i, 0, len(b), b[i] == b58dec(s)[i])
 
 //@ exec-import mrb58 github.com/mr-tron/base58
